@@ -471,11 +471,6 @@ func (s *Subscriber) SyncAdChain(ctx context.Context, peerInfo peer.AddrInfo, op
 	hnd := s.getOrCreateHandler(peerInfo.ID, true)
 	defer s.doneWithHandler(hnd)
 
-	syncer, updatePeerstore, err := hnd.makeSyncer(peerInfo, true)
-	if err != nil {
-		return cid.Undef, err
-	}
-
 	// Wait for any other sync of this publisher to finish. The lock is held
 	// from before the head is queried and the stop point is read until the
 	// latest sync is recorded: a sync that reads either while another sync of
@@ -485,6 +480,13 @@ func (s *Subscriber) SyncAdChain(ctx context.Context, peerInfo peer.AddrInfo, op
 	verifhook.LockWait("sync.lock", hnd.peerID, &hnd.syncMutex)
 	hnd.syncMutex.Lock()
 	defer hnd.syncMutex.Unlock()
+
+	// The sync client is kept by the handler between syncs: get it only now
+	// that no other sync of the publisher uses, or replaces, it.
+	syncer, updatePeerstore, err := hnd.makeSyncer(peerInfo, true)
+	if err != nil {
+		return cid.Undef, err
+	}
 
 	// Set depth limit to ads depth limit unless scoped depth is non-zero.
 	depthLimit := s.adsDepthLimit
@@ -635,6 +637,12 @@ func (s *Subscriber) syncEntries(ctx context.Context, peerInfo peer.AddrInfo, en
 	hnd := s.getOrCreateHandler(peerInfo.ID, true)
 	defer s.doneWithHandler(hnd)
 
+	// Wait for any other sync of this publisher to finish, and only then get
+	// the sync client that the handler keeps between syncs.
+	verifhook.LockWait("sync.lock", hnd.peerID, &hnd.syncMutex)
+	hnd.syncMutex.Lock()
+	defer hnd.syncMutex.Unlock()
+
 	syncer, _, err := hnd.makeSyncer(peerInfo, false)
 	if err != nil {
 		return err
@@ -646,7 +654,7 @@ func (s *Subscriber) syncEntries(ctx context.Context, peerInfo peer.AddrInfo, en
 	if err != nil {
 		panic(err.Error())
 	}
-	_, err = hnd.handle(ctx, entCid, sel, syncer, bh, segdl, cid.Undef)
+	_, err = hnd.handleLocked(ctx, entCid, sel, syncer, bh, segdl, cid.Undef)
 	if err != nil {
 		hnd.resetSyncer(syncer)
 		return fmt.Errorf("sync handler failed: %w", err)
@@ -1141,16 +1149,8 @@ func (h *handler) sendSyncFinishedEvent(c cid.Cid, count int) {
 	}
 }
 
-// handle processes a message from the peer that the handler is responsible
-// for, after waiting for any other sync of that peer to finish.
-func (h *handler) handle(ctx context.Context, nextCid cid.Cid, sel ipld.Node, syncer Syncer, bh BlockHookFunc, segdl int64, stopAtCid cid.Cid) (int, error) {
-	verifhook.LockWait("sync.lock", h.peerID, &h.syncMutex)
-	h.syncMutex.Lock()
-	defer h.syncMutex.Unlock()
-	return h.handleLocked(ctx, nextCid, sel, syncer, bh, segdl, stopAtCid)
-}
-
-// handleLocked is handle for a caller that holds syncMutex.
+// handleLocked processes a message from the peer that the handler is
+// responsible for. The caller holds syncMutex.
 func (h *handler) handleLocked(ctx context.Context, nextCid cid.Cid, sel ipld.Node, syncer Syncer, bh BlockHookFunc, segdl int64, stopAtCid cid.Cid) (int, error) {
 	log := log.With("cid", nextCid, "peer", h.peerID)
 
